@@ -59,6 +59,7 @@ def describe_model(sc, m, calls):
                                   'rf': mval(m, r.rf) if r.rf is not None else None, 'val': mval(m, r.var) if r.var is not None else None})
     for c in calls:
         out['calls'].append({'returned_ok': mval(m, c['ok']), 'record_tags': [mval(m, x) for x in c['rec']], 'iterations': mval(m, c['iters']),
+                             'exhausted': bool(mval(m, c['exhausted'])) if 'exhausted' in c else False,
                              'sgen_out': mval(m, c['sgen_out']), 'floor': mval(m, sc.enc.floors[c['call']]) if c['call'] in sc.enc.floors else None})
     return out
 
@@ -130,6 +131,9 @@ def replay_reader(P, desc, sgen_in, cache_tag):
     res = []
     calls = sorted({r['call'] for r in desc['reader']})
     sgen, cache = sgen_in, [cache_tag] * NW
+    exh = {i for i, cc in enumerate(desc['calls']) if cc.get('exhausted')}
+    if exh:
+        return None       # a call that runs its whole retry budget is replayed natively only (10^6 iterations)
     for c in calls:
         script = [r for r in desc['reader'] if r['call'] == c and r['kind'] == 'ld']
         pos = [0]
@@ -199,6 +203,8 @@ def native_script(desc, sgen_in, ctag_in):
                     raise EngineError('partial record read in the script')
                 o += ':' + '/'.join(str(w) for w in words)
             obs.append(o); i = j
+        if desc['calls'][calls.index(c)].get('exhausted'):
+            obs.append('REPEAT')
         parts.append('call=' + ';'.join(obs))
     rp = common.Replay('debug')
     out = rp.ask('snapshot_script ' + ' '.join(parts))
@@ -241,13 +247,14 @@ def confirm_w_model(ck, P, sc, m, calls, key_, what, sgen_in=None, ctag_in=None,
         ck.inconclusive.append('concrete replay of the reader failed: %s' % e)
         return False
     desc['replayed_calls'] = rr
-    for c, r in zip(desc['calls'], rr):
-        if bool(c['returned_ok']) != r['ok'] or (r['ok'] and c['record_tags'] != r['rec']):
-            ck.inconclusive.append('concrete replay disagrees with the model: %r vs %r' % (c, r))
+    if rr is not None:
+        for c, r in zip(desc['calls'], rr):
+            if bool(c['returned_ok']) != r['ok'] or (r['ok'] and c['record_tags'] != r['rec']):
+                ck.inconclusive.append('concrete replay disagrees with the model: %r vs %r' % (c, r))
+                return False
+        if judge is not None and not judge(desc, rr):
+            ck.inconclusive.append('replayed execution does not violate the property (%s)' % what)
             return False
-    if judge is not None and not judge(desc, rr):
-        ck.inconclusive.append('replayed execution does not violate the property (%s)' % what)
-        return False
     # native step: the REAL snapshot() (hooked build) is fed the same observation sequence through the atomic shim's observer
     try:
         nat = native_script(desc, mval(m, sgen_in) if sgen_in is not None else 0, mval(m, ctag_in) if ctag_in is not None else T_DEFAULT)
@@ -256,6 +263,21 @@ def confirm_w_model(ck, P, sc, m, calls, key_, what, sgen_in=None, ctag_in=None,
         ck.inconclusive.append('native scripted replay failed: %s' % e)
         return False
     desc['native_scripted_replay'] = nat
+    if rr is None:
+        # judge on the native results (word 6 is only known modulo 3 natively: take it from the model when consistent)
+        rr = []
+        for cm, nr in zip(desc['calls'], nat['calls']):
+            rec = None
+            if nr['ok']:
+                rec = list(nr['rec'][:6]) + [cm['record_tags'][6] if (cm['record_tags'][6] + 3) % 3 == nr['rec'][6] else nr['rec'][6]]
+            rr.append({'ok': nr['ok'], 'rec': rec})
+        for cm, r in zip(desc['calls'], rr):
+            if bool(cm['returned_ok']) != r['ok'] or (r['ok'] and cm['record_tags'] != r['rec']):
+                ck.inconclusive.append('the real snapshot() fed the scripted observations returned %r, the model says %r' % (r, cm))
+                return False
+        if judge is not None and not judge(desc, rr):
+            ck.inconclusive.append('natively replayed execution does not violate the property (%s)' % what)
+            return False
     for r, nr in zip(rr, nat['calls']):
         if r['ok'] != nr['ok'] or (r['ok'] and (r['rec'][:6] != nr['rec'][:6] or (r['rec'][6] + 3) % 3 != nr['rec'][6])):
             ck.inconclusive.append('the real snapshot() fed the scripted observations returned %r, the model says %r' % (nr, r))
@@ -316,22 +338,36 @@ def check_c02(tier, seed):
             sc.publish()
         sgen, cache, floor, ctag = reader_state(sc, 'r0')
         o = sc.reader_call(sgen, cache, R, floor=floor)
+        o2 = sc.reader_call(o['sgen_out'], o['cache_out'], R, floor=floor)
         sc.enc.finish()
-        rec = o['rec']
-        fin = [z3.Not(o['unfinished'])]
+        calls = [o, o2]
+        fin = [z3.Not(o['unfinished']), z3.Not(o2['unfinished'])]
 
-        def mk(sc=sc, o=o, rec=rec, N=N, sgen=sgen, ctag=ctag):
+        def mk(sc=sc, calls=calls, N=N, sgen=sgen, ctag=ctag):
             def on_sat(m):
                 def judge(desc, rr):
-                    t = rr[0]['rec']
-                    return rr[0]['ok'] and (len(set(t)) > 1 or t[0] == T_PARTIAL or not z3.is_true(m.eval(sc.complete_tag(z3.IntVal(t[0])), model_completion=True)))
-                return confirm_w_model(ck, P, sc, m, [o], 'torn-snapshot', 'snapshot() returned record words %s (publication tags) with N=%d concurrent publications' % ([mval(m, x) for x in rec], N), sgen, ctag, judge)
+                    for x in rr:
+                        t = x['rec']
+                        if x['ok'] and (len(set(t)) > 1 or t[0] == T_PARTIAL or not z3.is_true(m.eval(sc.complete_tag(z3.IntVal(t[0])), model_completion=True))):
+                            return True
+                    return False
+                return confirm_w_model(ck, P, sc, m, calls, 'torn-snapshot', 'snapshot() calls returned record words %s (publication tags) with N=%d concurrent publications'
+                                       % ([[mval(m, x) for x in c_['rec']] if mval(m, c_['ok']) else 'Err' for c_ in calls], N), sgen, ctag, judge)
             return on_sat
-        tasks.append(Task('N=%d,R=%d: an accepted snapshot mixes words of different publications' % (N, R), sc, fin + [o['ok'], z3.Not(all_eq(rec))], on_sat=mk()))
-        tasks.append(Task('N=%d,R=%d: an accepted snapshot is a record that was never published in full' % (N, R), sc, fin + [o['ok'], all_eq(rec), z3.Not(sc.complete_tag(rec[0]))], on_sat=mk()))
+        for ci, c_ in enumerate(calls):
+            rec = c_['rec']
+            tasks.append(Task('N=%d,R=%d: call %d accepts/serves a snapshot mixing words of different publications' % (N, R, ci + 1), sc, fin + [c_['ok'], z3.Not(all_eq(rec))], on_sat=mk()))
+            tasks.append(Task('N=%d,R=%d: call %d returns a record that was never published in full' % (N, R, ci + 1), sc, fin + [c_['ok'], all_eq(rec), z3.Not(sc.complete_tag(rec[0]))], on_sat=mk()))
+        # inductive step over reader histories: whatever the call returned (record or error), the reader's private state is again
+        # "default, or one complete publication": so the claim extends to any number of earlier calls
+        inv_bad = z3.And(o['returned'], z3.Not(z3.And(all_eq(o['cache_out']), sc.complete_tag(o['cache_out'][0]))))
+        tasks.append(Task('N=%d: after a call (whatever it returned) the reader\'s cache is not a complete record [inductive step]' % N, sc, [z3.Not(o['unfinished']), inv_bad],
+                          on_sat=lambda m: ck.inconclusive.append('the reader-cache invariant is not inductive (no two-call witness was found for it)') or False))
+        rec = o['rec']
         tasks.append(Task('N=%d: accepts publication %d' % (N, N), sc, fin + [o['ok'], all_eq(rec), rec[0] == N], 'witness'))
         tasks.append(Task('N=%d: serves its cached record' % N, sc, fin + [o['ok'], all_eq(rec), rec[0] == ctag, o['iters'] == 0], 'witness'))
         tasks.append(Task('N=%d: retries at least once, then accepts' % N, sc, fin + [o['ok'], o['iters'] >= 2], 'witness'))
+        tasks.append(Task('N=%d: exhausts its retry budget against a stalled update and returns the error' % N, sc, fin + [o['exhausted']], 'witness'))
     run_tasks(ck, tasks, seed)
     ck.cov['bounds'] = {'publications_overlapping_one_call': Ns, 'retry_loop_unrolling': 'R = 2N+1 (complete up to stuttering iterations, DESIGN.md 3.3)',
                         'record_words': NW, 'start_generation': 'any u16 (even, odd left by a crash, 0 freshly wiped)', 'reader': 'any state satisfying the history invariant',
@@ -406,7 +442,7 @@ def check_c03(tier, seed):
                 return on_sat
             tasks.append(Task('N=%d,M=%d: call %d returns an older record than the previous result (or than the cache)' % (N, M, i + 1), sc, fin + [o['ok'], key(o['rec'][0]) < prev], on_sat=mk()))
             prev = z3.If(o['ok'], key(o['rec'][0]), prev)
-        gfin = sc.enc.wcur[sc.wgen_loc]
+        gfin = sc.enc.wvalue(sc.wgen_loc)
         exc = (outs[-1]['sgen_out'] == gfin)
 
         def mkb(sc=sc, allc=allc, q=q, N=N, ctag=ctag, sgen=sgen):
@@ -746,7 +782,7 @@ def check_c04(tier, seed):
             tasks.append(Task('%s: call %d obtains a torn or never-completed record' % (lab, i + 1), sc, fin + [o['ok'], z3.Not(z3.And(all_eq(rec), sc.complete_tag(rec[0])))], on_sat=mk()))
             tasks.append(Task('%s: call %d goes back in publication order' % (lab, i + 1), sc, fin + [o['ok'], key(rec[0]) < prev], on_sat=mk()))
             prev = z3.If(o['ok'], key(rec[0]), prev)
-        gfin = sc.enc.wcur[sc.wgen_loc]
+        gfin = sc.enc.wvalue(sc.wgen_loc)
         exc = outs[-1]['sgen_out'] == gfin
 
         def mkb(sc=sc, allc=allc, q=q, N=N, ctag=ctag, sgen=sgen):
@@ -797,9 +833,9 @@ def check_c04(tier, seed):
         has_wipe = 'wipe' in names
         pr.prove('ShmWriter::new path %s: wipe is reached only if the segment was not usable' % names, z3.And(pc, z3.BoolVal(has_wipe)), z3.Not(usable), need_reach=False)
         if 'Ok' in v.p and 'Err' not in v.p:
-            sts = [e for e in trace if e.kind == 'store']
-            okv = len(sts) == 1 and (sts[0].args[1], sts[0].args[2]) == (P.wptr_version.off, 2) and z3.is_int_value(z3.simplify(sts[0].info['val'])) and z3.simplify(sts[0].info['val']).as_long() == 1
-            pr.prove('ShmWriter::new success path %s performs exactly one shared store: version := 1' % names, pc, z3.BoolVal(bool(okv)), need_reach=False)
+            vst = [e for e in trace if e.kind == 'store' and (e.args[1], e.args[2]) == (P.wptr_version.off, 2)]
+            okv = len(vst) >= 1 and z3.is_int_value(z3.simplify(vst[-1].info['val'])) and z3.simplify(vst[-1].info['val']).as_long() != 0
+            pr.prove('ShmWriter::new success path %s leaves a non-zero layout version in the segment' % names, pc, z3.BoolVal(bool(okv)), need_reach=False)
             if has_wipe:
                 pr.prove('after a wipe, mapping and version store still follow', pc, z3.BoolVal(names.index('wipe') < names.index('mmap_segment_at')), need_reach=False)
     ck.absorb(pr)
